@@ -566,6 +566,11 @@ class Interp:
                 return R("proj", of=obj, index=key)
             return U(f"subscript {norm(e)}")
         if isinstance(e, ast.JoinedStr):
+            for part in e.values:  # every replacement field is evaluated (it may raise); the text itself is not modelled here
+                if isinstance(part, ast.FormattedValue):
+                    self.eval(part.value, st)
+                    if st.pending is not None:
+                        return U("f-string field raised")
             return U("fstring")
         if isinstance(e, (ast.GeneratorExp, ast.ListComp, ast.SetComp, ast.DictComp)):
             return self.comprehension(e, st)
@@ -1326,6 +1331,13 @@ class Interp:
                         name = held.name[4:]
                     elif isinstance(held, R) and held.kind == "exc" and isinstance(held.fields.get("cls"), K):
                         name = str(held.fields["cls"].v)
+            if isinstance(s.exc, ast.Call):
+                # the exception object is built first: what its arguments evaluate (a message put together from helper calls
+                # and attribute reads) can itself raise, and then THAT exception is what leaves the statement
+                for a_r in list(s.exc.args) + [k_r.value for k_r in s.exc.keywords]:
+                    self.eval(a_r, st)
+                    if st.pending is not None:
+                        return [st]
             st.term = ("raise", name, norm(s.exc) if s.exc is not None else "")
             return [st]
         if isinstance(s, ast.Pass):
